@@ -1,0 +1,36 @@
+//go:build verif
+
+package main
+
+import (
+	"encoding/json"
+	"fmt"
+	"os"
+)
+
+// With the verif build tag and ESCALATOR_VERIF_DUMP_PROVIDER_CONFIG set, the binary runs the real
+// setupNodeGroups (decode + validation gate) and setupCloudProvider on the file named by --nodegroups,
+// prints the node group configuration the cloud provider would be built with, and exits.
+func init() {
+	if os.Getenv("ESCALATOR_VERIF_DUMP_PROVIDER_CONFIG") == "" {
+		return
+	}
+	for i, arg := range os.Args {
+		if arg == "--nodegroups" && i+1 < len(os.Args) {
+			*nodegroupConfigFile = os.Args[i+1]
+		}
+	}
+	nodegroups, err := setupNodeGroups()
+	if err != nil {
+		fmt.Fprintln(os.Stderr, err)
+		os.Exit(3)
+	}
+	builder, ok := setupCloudProvider(nodegroups).(cloudProviderBuilder)
+	if !ok {
+		fmt.Fprintln(os.Stderr, "unexpected cloud provider builder type")
+		os.Exit(3)
+	}
+	out, _ := json.Marshal(builder.ProviderOpts.NodeGroupConfigs)
+	fmt.Println("VERIF-PROVIDER-CONFIG " + string(out))
+	os.Exit(0)
+}
